@@ -430,7 +430,11 @@ def copy_wrapper(spec, overlap=False):
         s += "  if (a0 > n || !p) return 2;\n  auto b = %s;\n" % make_view_expr(spec, "p + a0", "n - a0", params=("a1", "a1"))
     else:
         s = "  auto a = %s;\n  auto b = %s;\n" % (make_view_expr(spec), make_view_expr(spec, "q", "m"))
-    s += "  bool ok = a.TryToCopyFrom(b);\n  if (ok) { O(0, a.Ok()); O(1, a.Equals(b)); }\n  return ok;"
+    if overlap:
+        # (with overlapping views the source may be changed by the copy: only the memmove effect is specified)
+        s += "  bool ok = a.TryToCopyFrom(b);\n  return ok;"
+    else:
+        s += "  bool ok = a.TryToCopyFrom(b);\n  if (ok) { O(0, a.Ok()); if (a.Ok() && b.Ok()) O(1, a.Equals(b)); }\n  return ok;"
     return s
 
 
